@@ -254,3 +254,35 @@ def run_combined():
                 problems.append({'kind': 'c13', 'combined': kind, 'msg': f'CacheToRam over a field downstream of hash_by_value(prepare='
                                  f'{"impure(f)" if kind == "impure" else "f"}, compute=g): {out.get(name)} (expected {want})'})
     return problems
+
+
+def run_marked_then_wrapped(seed=0):
+    """a function marked `impure(...)` and then handed to an entry point that expects a plain callable (`Apply(x=impure(f))`, `Function(impure(f),
+    'x')`): whatever that construct means, a cache layer without `impure=True` / a Filter on it never ends up serving or keying a value of the
+    impure function: the pipeline is rejected when defined or built, or cannot be evaluated"""
+    paths.use_repo()
+    import connectome as c
+    from connectome.interface.edges import Function
+    import itertools
+    problems = []
+    for form, top in itertools.product(['apply', 'function'], ['ram', 'filter']):
+        counter = itertools.count()
+
+        def tick(x):
+            return (x, next(counter))
+        try:
+            src = c.Transform(x=lambda id: id, ids=c.meta(lambda: ('0', '1', '2')), id=lambda id: id)
+            layer = c.Apply(x=c.impure(tick)) if form == 'apply' else c.Transform(__inherit__=True, x=Function(c.impure(tick), 'x'))
+            pipe = src >> layer >> (c.CacheToRam() if top == 'ram' else c.Filter(lambda x: True))
+            if top == 'ram':
+                a, b2 = pipe.x('1'), pipe.x('1')
+                served = a == b2
+            else:
+                pipe.ids
+                served = True
+        except Exception:
+            continue            # rejected at definition / build time, or not evaluable: nothing impure is cached or keyed
+        if served:
+            problems.append({'msg': f'a function marked impure(...) passed through {form} and then under {"CacheToRam()" if top == "ram" else "Filter"} without impure=True '
+                                    f'was accepted and evaluated: the impure value is served from the cache / enters a static hash'})
+    return problems
